@@ -788,6 +788,14 @@ def round2_programs(dev):
          "comps": [{"x": (1, 1)}, {"y": (1, 1)}, {"z": (1, 2), "x": (1, 2)}]},
         {"op": "transfer", "src": P, "sw": L([(0, 1), (1, 1)]), "dst": Sx, "dw": L([(0, 1), (0, 1)]), "vols": L([2, 2]), "label": "pool", "wash": 1},
     ], wlmax=30)
+    # a reagent distribution of many significant digits (12345.67 uL per well; unit = 1/100 uL): record and twin agree
+    big = [gen.mk_plate("bottles", 2, 2, 0, 5000000, [0, 100, 0, 0]), gen.mk_trough("tank", 4, 2, 1000, 90000000, [50000000, 40000000])]
+    h = _hdr("round2/distribute-many-digits", dev, big, wlmax=3000000, unit=Fraction(1, 100), flags={"comp": False, "norm": False})
+    h["snap"] = True
+    h["ops"] = [{"op": "distribute", "src": 1, "col": 0, "dst": 0, "dw": L([(0, 0), (1, 1)]), "vol": 1234567, "label": "12345.67 each"},
+                {"op": "distribute", "src": 1, "col": 1, "dst": 0, "dw": L([(1, 0)]), "vol": 2000001, "label": "20000.01"},
+                {"op": "transfer", "src": 1, "sw": L([(0, 0)]), "dst": 0, "dw": L([(0, 1)]), "vols": S(1234567), "label": "12345.67", "wash": 1}]
+    progs.append(h)
     # empty argument lists: nothing is pipetted, nothing is refused, later operations are unaffected
     prog("empty-lists", lw(), [
         {"op": "add", "lw": P, "wells": L([(0, 1)]), "vols": S(2), "label": "before"},
